@@ -200,14 +200,13 @@ def run_case(case):
     al, cr = along_cross(ex, ey, mxy, wd)
     ref = km_oracle(P, sigma_v, al, cr, res)
     scale = float(ref.max()) or 1.0
-    if 0.0 < scale < 1e-290:
-        # the whole raster lies where the footprint has decayed into the subnormal range (a receptor far beside the raster, thorough seed 6:
-        # peak 1e-318): subnormal numbers carry no relative accuracy - compared on the absolute scale of the smallest normal number instead
-        scale = 2.3e-308
-        buckets["closed_form_compared_on_the_absolute_scale_of_the_normal_range"] = 1
+    # where the footprint has decayed into the subnormal range (a receptor far beside the raster; thorough seeds 6 and 8: peaks of 1e-318
+    # and 1e-313) an intermediate product is quantised to 4.9e-324 before it is multiplied by the cell area: an absolute allowance of
+    # 64 quanta times the cell area on top of the relative tolerance (it is 1e-300 of any footprint that matters)
+    sub_floor = 64 * 4.94e-324 * max(1.0, res * res)
     # cells whose along-wind coordinate is within rounding of zero may fall on either side of the receptor
     amb = np.abs(al) < 1e-9 * half
-    d = np.abs(ffm - ref)
+    d = np.clip(np.abs(ffm - ref) - sub_floor, 0.0, None)
     d[amb] = 0
     rel = float(d.max() / scale)
     resid["closed_form_rel"] = rel
@@ -227,10 +226,9 @@ def run_case(case):
             except Warning:
                 continue
             refb = km_oracle(Px, sigma_v, al, cr, res)
-            db = np.abs(fb - refb)
+            db = np.clip(np.abs(fb - refb) - sub_floor, 0.0, None)   # (subnormal allowance, as above)
             db[amb] = 0
-            scb = float(refb.max()) or 1.0
-            relb = float(db.max() / (scb if not 0.0 < scb < 1e-290 else 2.3e-308))   # (subnormal rasters: absolute scale, as above)
+            relb = float(db.max() / (float(refb.max()) or 1.0))
             resid["closed_form_rel"] = max(resid["closed_form_rel"], relb)
             if relb > 1e-10:
                 viol.append({"what": "differs_from_published_closed_form", "history": f"{lab} call with the same zm and L, other ws/ustar/z0",
